@@ -634,14 +634,21 @@ def _process_body(fs, body, src, b0, applied, out, tail_check=True):
             continue
         inserts.append((pos[0], "split", lines))
     # contract text inserted in the middle of a line (closure signatures): after / before a unique piece of source text
+    # (these insertions come in groups that together form one syntactic construct — `|x| -> (r: T) ensures .. {` and the
+    # closing `}` — so if one anchor of a function is lost, none of them is placed)
+    mid = []
+    mid_lost = False
     for kind, lst in (("after", fs.insert_after), ("before", fs.insert_before)):
         for anchor, lines in lst:
             cnt = body.count(anchor)
             if cnt != 1:
                 _hint_lost("lost anchor: %s: text %r occurs %d times" % (fs.id, anchor, cnt))
+                mid_lost = True
                 continue
             k = body.index(anchor)
-            inserts.append((k + len(anchor) if kind == "after" else k, "split", lines))
+            mid.append((k + len(anchor) if kind == "after" else k, "split", lines))
+    if not mid_lost:
+        inserts.extend(mid)
     # body-start
     if fs.body_start:
         inserts.append((1, "after-brace", fs.body_start))
